@@ -397,12 +397,12 @@ def run(tier, seed, res):
                        "every process first runs one empty epoch (context_start + context_wait): taskpool_wait/_test before the first "
                        "context_wait of a process crash (known finding, corpus/C06/regress/wait_before_first_context_wait.txt)",
                        "schedulers %s excluded (known finding, see C03) unless VF_DTD_SCHED_ALL=1" % ",".join(g.LIVELOCK_SCHEDS)]
-    n = 300 if quick else 8000
+    n = 1200 if quick else 8000
     per = 15 if quick else 40
     hs = g.generate(histories(), n, seed)
     nb = (n + per - 1) // per
     cfgs = g.generate(g.proc_cfgs(ranks=1, tmin=1, tmax=16), nb, seed * 131 + 7)
-    batches = [(dict(cfgs[i], tq=5 if quick else 20), hs[i::nb]) for i in range(nb)]
+    batches = [(dict(cfgs[i % len(cfgs)], tq=5 if quick else 20), hs[i::nb]) for i in range(nb)]
     batches.sort(key=lambda b: -b[0]["threads"])
     rd = core.run_dir(PROP)
     t0 = time.time()
